@@ -166,6 +166,12 @@ pub enum Op {
     SplitOff(Tgt, usize),
     AppendFromLive1(Tgt),
     Drain01(Tgt),
+    /// double-ended traversal (back, front, back, front, ... to exhaustion, then two more polls)
+    /// of 0: iter(), 1: iter_mut(), 2: into_iter() of a clone, 3: drain(..)
+    ArrIterBothEnds(Tgt, usize),
+    /// mutable lookups applied to a target of any kind (string, number, literal, container):
+    /// get_mut(key), get_mut(index), pointer_mut([key, key]), pointer_mut([index, key])
+    LookupMutAnyKind(Tgt),
     Extend(Tgt),
     Resize(Tgt, usize, Leaf),
     ArrIndexAssign(Tgt, usize, Leaf),
@@ -230,6 +236,10 @@ pub fn ops() -> Vec<Op> {
         v.push(Resize(t, 0, One));
         v.push(Insert(t, 1, CloneOfLive1));
         v.push(Drain01(t));
+        for how in 0..4 {
+            v.push(ArrIterBothEnds(t, how));
+        }
+        v.push(LookupMutAnyKind(t));
         v.push(Extend(t));
         v.push(Resize(t, 3, ArrTrue));
         v.push(ArrIndexAssign(t, 0, ObjB));
@@ -512,6 +522,84 @@ pub fn apply(op: &Op, live: &mut Vec<Value>, model: &mut Vec<R>) -> Result<(), S
                 m.extend(other_m.iter().cloned());
                 Some("other-left-with-0".to_string())
             })
+        }
+        Op::ArrIterBothEnds(t, how) => on_array!(t, "double-ended iteration", |a| {
+            fn walk<I: DoubleEndedIterator<Item = String>>(mut it: I) -> String {
+                let mut out = vec![];
+                let mut from_back = true;
+                let mut polls = 0;
+                loop {
+                    let x = if from_back { it.next_back() } else { it.next() };
+                    from_back = !from_back;
+                    polls += 1;
+                    match x {
+                        Some(s) => out.push(s),
+                        None => break,
+                    }
+                    if polls > 64 {
+                        out.push("...".into());
+                        break;
+                    }
+                }
+                out.push(format!("then:{:?},{:?}", it.next(), it.next_back()));
+                out.join(";")
+            }
+            Some(match how {
+                0 => walk(a.iter().map(|v| v_dumps(v))),
+                1 => walk(a.iter_mut().map(|v| v_dumps(v))),
+                2 => walk(a.clone().into_iter().map(|v| v_dumps(&v))),
+                _ => walk(a.drain(..).map(|v| v_dumps(&v))),
+            })
+        }, |m| {
+            fn walk<I: DoubleEndedIterator<Item = String>>(mut it: I) -> String {
+                let mut out = vec![];
+                let mut from_back = true;
+                loop {
+                    let x = if from_back { it.next_back() } else { it.next() };
+                    from_back = !from_back;
+                    match x {
+                        Some(s) => out.push(s),
+                        None => break,
+                    }
+                }
+                out.push(format!("then:{:?},{:?}", it.next(), it.next_back()));
+                out.join(";")
+            }
+            let r = walk(m.iter().map(|r| r_dumps(r)));
+            if *how == 3 {
+                m.clear();
+            }
+            Some(r)
+        }),
+        Op::LookupMutAnyKind(t) => {
+            if tgt_live(*t) >= live.len() {
+                return Ok(());
+            }
+            let want: Option<[bool; 4]> = model_target(model, *t).map(|m| {
+                let k = matches!(m, R::Obj(o) if o.contains_key("a"));
+                let i = matches!(m, R::Arr(a) if !a.is_empty());
+                let kk = match m {
+                    R::Obj(o) => matches!(o.get("a"), Some(R::Obj(p)) if p.contains_key("b")),
+                    _ => false,
+                };
+                let ik = match m {
+                    R::Arr(a) => matches!(a.first(), Some(R::Obj(p)) if p.contains_key("b")),
+                    _ => false,
+                };
+                [k, i, kk, ik]
+            });
+            let got = guard(|| {
+                impl_target(live, *t).map(|v| {
+                    let k = v.get_mut("a").is_some();
+                    let i = v.get_mut(0usize).is_some();
+                    let kk = v.pointer_mut([PointerNode::Key("a".into()), PointerNode::Key("b".into())].iter()).is_some();
+                    let ik = v.pointer_mut([PointerNode::Index(0), PointerNode::Key("b".into())].iter()).is_some();
+                    [k, i, kk, ik]
+                })
+            })?;
+            if got != want {
+                return Err(format!("mutable lookups [get_mut(\"a\"), get_mut(0), pointer_mut(a/b), pointer_mut(0/b)] found {:?}, the model {:?}", got, want));
+            }
         }
         Op::Drain01(t) => on_array!(t, "drain(0..1)", |a| {
             if a.is_empty() {
